@@ -299,7 +299,7 @@ def read_meta_image_from_fileobj(f: io.BufferedReader) -> Tuple[np.ndarray, Meta
 
     image = np.frombuffer(buffer, dtype=meta["ElementType"]).reshape(shape)
     if meta.get("BinaryDataByteOrderMSB") or meta.get("ElementByteOrderMSB"):
-        image.byteswap(inplace=True)
+        image = image.byteswap()
     image = image.copy()
 
     # remove unused metadata
